@@ -32,6 +32,22 @@ func runProbes(c *kit.Ctx) {
 			}
 		}
 	}
+	// exhausted offerings must not decide the launch price: t00 lists an UNAVAILABLE cheap reserved (or spot) offering next
+	// to an available on-demand offering at / above the on-demand candidate's price; the NodePool allows no spot. Only the
+	// on-demand offering can be launched, so t00 is no replacement (and must not become one).
+	for _, goneCT := range []string{"reserved", "spot"} {
+		for _, od := range []int64{4095, 4096, 6144} {
+			for _, ct := range [][]string{{"reserved", "on-demand"}, {goneCT, "on-demand"}, nil} {
+				gone := offSpec{CT: goneCT, Zone: "z1", Price: 128, Avail: false}
+				if goneCT == "reserved" {
+					gone.RID = "r-t00-z1"
+				}
+				spec := probeWorld(true, 1, ct, false)
+				spec.Catalog[1].Offs = []offSpec{gone, {CT: "on-demand", Zone: "z1", Price: od, Avail: true}}
+				runSingle(c, genOut{spec: spec, mode: "probe_exhausted_offering"})
+			}
+		}
+	}
 	// the single-node timeout with NodePools left unseen: two pools, pinned pods (every candidate publishes "not all pods
 	// would schedule"), so the loop times out after the first candidate and remembers the other pool for the next run
 	{
